@@ -942,6 +942,9 @@ package tcell
 //@   calls [never-evicts] call("*recv:eventQ", got) ==> false
 //@   calls [never-parks] call("*select:blocking*", a) ==> false
 //@   ensures [one-offer] calls("*select:nonblocking:send:eventQ") <= 1
+//@   ensures [size-agrees] old(t.w == t.cells.w && t.h == t.cells.h) ==> t.w == t.cells.w && t.h == t.cells.h
+//@   ensures [wf] cbwf(&t.cells)
+//@   ensures [buffer] t.cells.cells == old(t.cells.cells) || fresh(t.cells.cells)
 //@   modifies t.cx, t.cy, t.cells.w, t.cells.h, t.cells.cells, t.cells.cells[*], t.w, t.h
 
 // PostEvent: nil exactly when the event was queued, ErrEventQFull exactly when it was not; it looks at the stop channel
@@ -1140,7 +1143,14 @@ package tcell
 //@   ensures [reapplied] isNil(result) ==> calls(enableMouse) == 1 && calls(enablePasting) == 1 && calls(enableFocusReporting) == (t.focusEnabled ? 1 : 0)
 //@   ensures [not-started] !isNil(result) ==> calls(enableMouse) == 0 && calls(enablePasting) == 0 && calls(enableFocusReporting) == 0
 //@   ensures [finished-stays-down] old(t.fini) ==> !isNil(result) && calls(Start) == 0 && calls(NotifyResize) == 0
-//@   modifies t.running, t.stopQ, t.cells.w, t.cells.h, t.cells.cells, t.buf, t.wg, t.Mutex
+// the size the draw loops run over (t.w, t.h) is the size of the cell buffer: draw's precondition - a draw over a buffer
+// smaller than t.w x t.h never ends (drawCell reports width 0 outside the buffer), with the screen lock held, so
+// neither Suspend nor Fini returns.  disengage empties the buffer on purpose (everything is repainted after Resume);
+// engage, which sizes it to the window again, has to leave the two in agreement
+//@   ensures [size-agrees] isNil(result) && calls(Resize) == 1 ==> t.w == t.cells.w && t.h == t.cells.h
+//@   calls [window-sized] call(WindowSize, recv, ret) ==> (isNil(result) && isNil(ret.1) && ret.0.Width != 0 && ret.0.Height != 0 ==>
+//@              t.cells.w == ret.0.Width && t.cells.h == ret.0.Height && t.w == ret.0.Width && t.h == ret.0.Height)
+//@   modifies t.running, t.stopQ, t.cells.w, t.cells.h, t.cells.cells, t.buf, t.wg, t.Mutex, t.w, t.h
 
 // ---------------------------------------------------------------------------
 // C06: the screen is inert after Fini - Show, Sync and SetStyle test t.fini, which the shutdown has to set.
